@@ -292,6 +292,11 @@ def is_len_guard(c):
     return False
 
 
+def is_mode_guard(c):
+    x = c.args[0] if c.op == "not" else c
+    return x.op in ("is_variant", "matches") and x.args[0].op == "param" and x.args[0].args[0] in ("compress", "validate", "_compress", "_validate", "mode", "_mode")
+
+
 def allowed_guard(c):
     x = c.args[0] if c.op == "not" else c
     if x.op == "decode_ok":
@@ -341,6 +346,9 @@ def panic_audit(rep, cfg, eps):
                 for rx, k2, why in PANIC_TABLE:
                     if re.search(rx, fn) and (k2 == kind or k2 in kind):
                         reason = why
+                if reason is None and pc and all(is_mode_guard(c_) for c_ in pc):
+                    # wherever the site was moved to: it is reached only through tests of the caller's Compress / Validate arguments
+                    reason = "reached only under the caller-chosen mode arguments %s (not input bytes): outside C02's quantifier" % [Tm.show(c_, maxdepth=3) for c_ in pc]
                 key = "PANIC/%s/%s/%s" % (cfg.name, norm_path(fn), kind)
                 rep.ob(key, reason is not None,
                        "panic-capable site (%s) reachable from decoding entry point %s under %s: %s" % (
